@@ -115,6 +115,93 @@ B1_INSTANCES = {
 }
 
 
+# invariants between file-static scalars, proved inductively by I2 and assumed by B1 at sites that
+# no store to one of the scalars precedes: file -> (read position, fill count, array)
+QUEUE_INVS = {"term.c": ("ibuf_pos", "ibuf_cnt", "ibuf")}
+
+
+def queue_invariant(prog, file):
+    """[Lin >= 0 ...] for 0 <= pos <= cnt <= LEN(array), or None when the names are gone"""
+    if file not in QUEUE_INVS:
+        return None
+    pos, cnt, arr = QUEUE_INVS[file]
+    gl = {nm: [g for g in prog.globals.get(nm, []) if g["file"] == file] for nm in (pos, cnt, arr)}
+    if not all(gl.values()) or "arr_n" not in gl[arr][0]:
+        return None
+    N = gl[arr][0]["arr_n"]
+    P, C = Lin({pos: 1}), Lin({cnt: 1})
+    return [P, C - P, Lin(k=N) - C]
+
+
+def _queue_hyps_at(prog, f, n):
+    """the invariant, when it still speaks about the values at node n (nothing stored before it)"""
+    inv = queue_invariant(prog, f.file)
+    if not inv:
+        return []
+    names = set(QUEUE_INVS[f.file][:2])
+    st = [m["id"] for m, lv, op, rhs in stores(f.body) if lv["k"] == "ref" and lv["name"] in names]
+    if st:
+        # a store that can run before the node invalidates it
+        for sid in st:
+            pa, pb = f.cfg.pos(sid), f.cfg.pos(n)
+            if pa is None or pb is None:
+                return []
+            if pa[0] == pb[0] and pa[1] < pb[1]:
+                return []
+            if pa[0] != pb[0] and f.cfg.search(pa, lambda e: e == n["id"]) is not None:
+                return []
+    return inv
+
+
+def rule_I2(ctx):
+    """The input queue keeps 0 <= read position <= fill count <= size: it holds for the zeroed
+    statics and every function of the file that stores one of the two re-establishes it at each
+    exit, assuming it on entry (over the function's paths, with substitution)."""
+    ctx.begin("I2", floor=2, what="input queue invariant re-established at returns")
+    from ..bounds import path_states
+    prog = ctx.prog
+    for file, (pos, cnt, arr) in sorted(QUEUE_INVS.items()):
+        inv = queue_invariant(prog, file)
+        if inv is None:
+            raise AnalysisBroken("%s: %s / %s / %s not found" % (file, pos, cnt, arr))
+        names = ("pos >= 0", "pos <= cnt", "cnt <= size")
+        nw = 0
+        for f in prog.funcs.values():
+            if f.file != file:
+                continue
+            if not any(lv["k"] == "ref" and lv["name"] in (pos, cnt) for m, lv, op, rhs in stores(f.body)):
+                continue
+            nw += 1
+            # read(2) returns at most the count it was asked for
+            libc = []
+            for c in f.calls("read"):
+                k_ = linearize(c["args"][2])
+                if k_ is not None:
+                    libc.append(k_ - Lin({key(c): 1}))
+            try:
+                sts = path_states(f, "exit", init_hyps=list(inv) + libc)
+            except OverflowError:
+                ctx.inconclusive(f.name, "input queue invariant", "too many paths")
+                continue
+            bad = None
+            for subst, hyps, items in sts:
+                P = subst.get(pos, Lin({pos: 1}))
+                C = subst.get(cnt, Lin({cnt: 1}))
+                N = inv[2] + Lin({cnt: 1})
+                goals = [(names[0], Lin(k=0), P), (names[1], P, C), (names[2], C, N)]
+                for gn, a, b in goals:
+                    if a is None or b is None or prove_le(a, b, hyps) != PROVEN:
+                        bad = bad or (gn, items)
+            if bad:
+                ctx.violation(f.name, "input queue invariant",
+                              "a path through %s does not re-establish `%s` of (%s, %s, %s[])" % (
+                                  f.name, bad[0], pos, cnt, arr), f.loc(f.body))
+            else:
+                ctx.ok(f.name, "0 <= %s <= %s <= LEN(%s) at every exit (%d paths)" % (pos, cnt, arr, len(sts)))
+        if nw == 0:
+            raise AnalysisBroken("%s: nobody stores %s / %s" % (file, pos, cnt))
+
+
 def rule_B1(ctx):
     ctx.begin("B1", floor=8, what="guarded writes into fixed arrays")
     prog = ctx.prog
@@ -127,7 +214,7 @@ def rule_B1(ctx):
         for n, arr, idx, ln, desc in array_writes(prog, f):
             N = arrays[arr][0]
             inst = (f.name, arr)
-            v, hyps = prove_index(f, n, idx + ln, Lin(k=N))
+            v, hyps = prove_index(f, n, idx + ln, Lin(k=N), _queue_hyps_at(prog, f, n))
             if inst in B1_INSTANCES:
                 found.add(inst)
                 if v == PROVEN:
@@ -1902,4 +1989,4 @@ def rule_B3(ctx):
         ctx.broken("only %d allocation writes proven" % n_ok)
 
 
-RULES = {"I1": rule_I1, "B9": rule_B9, "B11": rule_B11, "B1": rule_B1, "B2": rule_B2, "B3": rule_B3, "B4": rule_B4, "B5": rule_B5, "B6": rule_B6, "B10": rule_B10, "P1": rule_P1, "B14": rule_B14}
+RULES = {"I1": rule_I1, "I2": rule_I2, "B9": rule_B9, "B11": rule_B11, "B1": rule_B1, "B2": rule_B2, "B3": rule_B3, "B4": rule_B4, "B5": rule_B5, "B6": rule_B6, "B10": rule_B10, "P1": rule_P1, "B14": rule_B14}
